@@ -49,6 +49,7 @@ def run(ctx):
                        "(Integrity::matches only compares the writer's algorithm); the state must match the outcome"]
     cache = ctx.new_cache()
     prior_data = b"previous value"
+    holder = ctx.call("sync@astd", {"op": "write", "cache": cache, "key": "holder-of-shared-content", "data": ctx.data(prior_data)})
     for i in range(n):
         mode = modes[i % len(modes)]
         keyed = rng.random() < 0.75
@@ -61,6 +62,10 @@ def run(ctx):
         else:
             ln = rng.randint(0, 3000)
         data = gen.data(rng, ln)
+        shared = rng.random() < 0.2
+        if shared:
+            # the very bytes another key (and possibly this key's previous value) already stores
+            data, ln, algo = prior_data, len(prior_data), "sha256"
         shape, lens = gen.chunking(rng, ln)
         sclass = rng.choice(["none", "exact", "exact", "minus1", "plus1", "zero", "double", "mib-1", "mib", "mib+1"])
         dsize = {"none": None, "exact": ln, "minus1": ln - 1, "plus1": ln + 1, "zero": 0, "double": 2 * ln,
@@ -95,6 +100,8 @@ def run(ctx):
         if keyed:
             wreq["key"] = key
         look = [{"op": "metadata", "cache": cache, "key": key}, {"op": "read", "cache": cache, "key": key}] if keyed else []
+        if shared:
+            look = look + [{"op": "read", "cache": cache, "key": "holder-of-shared-content"}]
         reqs = pre + look + [wreq] + look
         resps = ctx.batch(mode, reqs)
         np_, nl = len(pre), len(look)
@@ -104,7 +111,7 @@ def run(ctx):
         v = ev.variant(w)
         regime = "len0" if ln == 0 else ("<=1MiB" if ln <= MIB else ">1MiB")
         chunkclass = "chunks0" if not lens else ("chunks1" if len(lens) == 1 else "chunksN")
-        dk = (mode, keyed, regime, sclass, ikind, prior, chunkclass)
+        dk = (mode, keyed, regime, sclass, ikind, prior, chunkclass, shared)
         ctx.case(distinct_key=dk, sample={"mode": mode, "keyed": keyed, "algo": algo, "len": ln, "chunks": lens[:10],
                                           "declared_size": dsize, "integrity_class": ikind, "prior": prior,
                                           "result": v})
@@ -121,19 +128,19 @@ def run(ctx):
             if e.get("wanted") != dsize or e.get("actual") != ln:
                 ctx.violation(sig + "|SizeMismatch-numbers",
                               f"SizeMismatch reports ({e.get('wanted')},{e.get('actual')}), expected ({dsize},{ln})", det)
-        if not keyed:
+        if not keyed and not shared:
             continue
         ctx.count("before_after_comparisons")
         if v != "Ok":
-            # mapping must be untouched
+            # mapping must be untouched (the key's own, and every other key relying on the same content)
             for b, a, q in zip(before, after, look):
                 if strip(b) != strip(a):
-                    ctx.violation(sig + f"|rejected-but-{q['op']}-changed",
+                    ctx.violation(sig + f"|rejected-but-{q['op']}-changed" + ("|shared-content" if shared else ""),
                                   f"commit was rejected with {v} but {q['op']}({key!r}) changed: "
                                   f"{ev.brief(b)} -> {ev.brief(a)}", det)
                     break
-        else:
-            m, rd = after
+        elif keyed:
+            m, rd = after[0], after[1]
             # the entry is indexed under the address the data was stored at
             exp_sri = ref.sri(algo, data)
             if not ev.is_ok(m) or m["ok"]["entry"] is None:
